@@ -4,67 +4,9 @@ import (
 	"context"
 
 	"go.brendoncarroll.net/p2p"
-	"go.brendoncarroll.net/p2p/f/x509"
-	"go.brendoncarroll.net/p2p/f/x509/oids"
-	"go.brendoncarroll.net/p2p/p/p2pke"
-	"go.brendoncarroll.net/p2p/s/swarmutil"
 )
 
-// C04 (P2PKE swarm glue), relative to the Channel contract established by C02/C03/C05:
-// p2pke.Channel's methods are engine-level havoc (Deliver returns nothing / an error / any
-// application bytes; RemoteKey returns the channel's fixed key; WaitReady may fail).
-
-var vAlgo = oids.New(1, 2, 3)
-
-type vAddr uint8
-
-func (a vAddr) MarshalText() ([]byte, error) { return []byte{'a' + byte(a)}, nil }
-func (a vAddr) String() string               { return string([]byte{'a' + byte(a)}) }
-
-type vInner struct{ told *int }
-
-func (s vInner) Tell(ctx context.Context, dst vAddr, v p2p.IOVec) error { *s.told++; return nil }
-func (s vInner) Receive(ctx context.Context, fn func(p2p.Message[vAddr])) error {
-	return nil
-}
-func (s vInner) LocalAddrs() []vAddr                  { return []vAddr{0} }
-func (s vInner) MTU() int                             { return 1000 }
-func (s vInner) Close() error                         { return nil }
-func (s vInner) ParseAddr(data []byte) (vAddr, error) { return 0, nil }
-
-// the harness fingerprint: identity = first key byte
-func vFP(pub *x509.PublicKey) (ret p2p.PeerID) {
-	if len(pub.Data) > 0 {
-		ret[0] = pub.Data[0]
-	}
-	ret[1] = 0x77
-	return ret
-}
-
-// engine intrinsics (see engine/symgo/models.py): natively unused
-func vChanSends(c *p2pke.Channel) int           { return 0 }
-func vChanAccept(c *p2pke.Channel, k byte) bool { return false }
-
-type vGot struct {
-	src, dst Addr[vAddr]
-	payload  []byte
-}
-
-func vNewSwarm(told *int, wlM, wlV byte) *Swarm[vAddr] {
-	cfg := newDefaultConfig[vAddr]()
-	cfg.fingerprinter = vFP
-	cfg.whitelist = func(a Addr[vAddr]) bool { return a.ID[0]&wlM == wlV }
-	s := &Swarm[vAddr]{
-		inner:     vInner{told: told},
-		config:    cfg,
-		publicKey: x509.PublicKey{Algorithm: vAlgo, Data: []byte{0x42}},
-		hub:       swarmutil.NewTellHub[Addr[vAddr]](),
-		store:     newStore[string, *channelState](),
-		ctx:       context.Background(),
-	}
-	s.localID = vFP(&s.publicKey)
-	return s
-}
+// C04 (P2PKE swarm glue), relative to the Channel contract established by C02/C03/C05.
 
 // verif: replay=none stubs=channel sched=coop time=concrete cover=delivered,nothing bounds="p2pkeswarm.handleMessage: any inbound packet outcome of the channel (nothing / error / application bytes), whitelist (id&m)==v symbolic: a delivery carries Src.ID = fingerprint(channel.RemoteKey()), Src.Addr = transport source, Dst = local id; the inbound channel's AcceptKey is exactly the whitelist applied to fingerprint(key)@source"
 func VH_C04_p2pkeswarmInbound() bool {
@@ -124,5 +66,36 @@ func VH_C04_p2pkeswarmOutbound() bool {
 	var want p2p.PeerID
 	want[0], want[1] = k, 0x77
 	vAssert(vChanAccept(cs.Channel, k) == (want == dst.ID), "outbound-accept-predicate-is-not-identity-equality")
+	return true
+}
+
+// verif: replay=none stubs=channel sched=coop time=concrete unwind=8 cover=delivered-after-dial,delivered-inbound bounds="p2pkeswarm with whitelist (id&m)==v: optionally a Tell to an arbitrary identity at transport address 1 first (the swarm dials a channel), then a packet from transport address 1: whatever is delivered has a whitelisted source. Channel contract: a channel's remote key satisfies the AcceptKey it was created with"
+func VH_C04_p2pkeswarmWhitelistEveryPath() bool {
+	told := 0
+	wlM, wlV := vByte(), vByte()
+	s := vNewSwarm(&told, wlM, wlV)
+	var got []vGot
+	go func() {
+		for i := 0; i < 2; i++ {
+			s.hub.Receive(context.Background(), func(m p2p.Message[Addr[vAddr]]) {
+				got = append(got, vGot{src: m.Src, dst: m.Dst, payload: append([]byte{}, m.Payload...)})
+			})
+		}
+	}()
+	dialled := vBool()
+	if dialled {
+		var dst Addr[vAddr]
+		dst.ID[0], dst.ID[1], dst.Addr = vByte(), 0x77, 1
+		s.Tell(context.Background(), dst, p2p.IOVec{[]byte{1}})
+	}
+	s.handleMessage(context.Background(), p2p.Message[vAddr]{Src: 1, Dst: 0, Payload: vBytes(2)})
+	for _, g := range got {
+		if dialled {
+			vCover("delivered-after-dial")
+		} else {
+			vCover("delivered-inbound")
+		}
+		vAssert(g.src.ID[0]&wlM == wlV, "message-from-a-peer-the-whitelist-rejects-was-delivered")
+	}
 	return true
 }
